@@ -5,6 +5,9 @@ A check module provides
     PID, LEVEL, RULE, ASSUMPTIONS, TECHNIQUE
     budget(tier)            -> {"examples": int, "shards": int, ...}
     strategy(tier)          -> Hypothesis strategy of JSON-able cases
+    strategy2(tier)         -> second-stage strategy, budget key "examples2" (optional; used for the multi-session
+                               histories of checks/c11.py judged with this check's own clauses; counted separately
+                               so that the class floors keep describing the main generator)
     run_case(case)          -> Result
     shrink_candidates(case) -> iterable of simpler cases          (optional)
     directed_cases(tier)    -> list of cases that always run first (optional)
@@ -91,12 +94,18 @@ class Campaign:
         self.nontrivial_extra = 0  # distinct-by-construction enumerated cases
         self.pbt_cases = 0  # cases that went through record() (floors are judged on these)
         self.unit_cases = set()
+        self.stage2 = False
+        self.nt2 = set()
+        self.cases2 = 0
         self.t0 = time.time()
 
     # -- recording -----------------------------------------------------
     def record(self, case, res):
         self.cases += 1
-        self.pbt_cases += 1
+        if self.stage2:
+            self.cases2 += 1
+        else:
+            self.pbt_cases += 1
         self.evaluations += res.evaluations
         self.excluded += res.excluded
         for c in res.classes:
@@ -107,7 +116,9 @@ class Campaign:
                 # units of one case are distinct by construction; a case seen twice is counted once
                 self.unit_cases.add(dg0)
                 self.nontrivial_extra += int(res.nt_units)
-        if res.nontrivial:
+        if res.nontrivial and self.stage2:
+            self.nt2.add(digest(case))
+        elif res.nontrivial:
             dg = digest(case)
             if dg not in self.nontrivial:
                 self.nontrivial.add(dg)
@@ -149,6 +160,8 @@ class Campaign:
             "extra_cov": self.extra_cov,
             "nontrivial_extra": self.nontrivial_extra,
             "pbt_cases": self.pbt_cases,
+            "nt2": sorted(self.nt2),
+            "cases2": self.cases2,
         }
 
     def merge(self, d):
@@ -170,6 +183,8 @@ class Campaign:
         self.excluded += d["excluded"]
         self.nontrivial_extra += d.get("nontrivial_extra", 0)
         self.pbt_cases += d.get("pbt_cases", d["cases"])
+        self.nt2.update(d.get("nt2", []))
+        self.cases2 += d.get("cases2", 0)
         for k, v in d.get("extra_cov", {}).items():
             if isinstance(v, (int, float)) and isinstance(self.extra_cov.get(k), (int, float)):
                 self.extra_cov[k] += v
@@ -178,11 +193,11 @@ class Campaign:
 
 
 # ----------------------------------------------------------------------
-def _hypothesis_search(mod, camp, tier, seed, examples):
+def _hypothesis_search(mod, camp, tier, seed, examples, stage2=False):
     import hypothesis
     from hypothesis import HealthCheck, Phase, given, settings
 
-    strat = mod.strategy(tier)
+    strat = mod.strategy2(tier) if stage2 else mod.strategy(tier)
     if strat is None or examples <= 0:
         return
 
@@ -265,7 +280,7 @@ def write_evidence(mod, camp, violations, known_seen, wall):
     cov = {
         "evaluations": int(camp.evaluations),
         "cases": int(camp.cases),
-        "distinct_nontrivial": len(camp.nontrivial) + int(camp.nontrivial_extra),
+        "distinct_nontrivial": len(camp.nontrivial) + int(camp.nontrivial_extra) + len(camp.nt2),
         "rule": mod.RULE,
         "samples": samples[:5],
         "classes": camp.classes,
@@ -273,6 +288,9 @@ def write_evidence(mod, camp, violations, known_seen, wall):
         "known_findings_seen": known_seen,
         "failure_buckets": {k: v[2] for k, v in camp.buckets.items()},
     }
+    if camp.cases2:
+        cov["second_stage"] = {"cases": camp.cases2, "distinct_nontrivial": len(camp.nt2),
+                               "what": getattr(mod, "STAGE2", "second-stage generator")}
     cov.update(camp.extra_cov)
     ev = {
         "property_id": mod.PID,
@@ -416,7 +434,10 @@ def main(mod, argv):
         elif a == "--seed":
             seed = int(args.pop(0))
     camp = Campaign(mod, tier, seed)
-    b = mod.budget(tier)
+    b = dict(mod.budget(tier))
+    for key in ("examples", "examples2"):  # development aid: override the case counts
+        if os.environ.get("VERIF_" + key.upper()):
+            b[key] = int(os.environ["VERIF_" + key.upper()])
     try:
         if shard is not None:
             # worker process: corpus + directed cases (first worker only), then one shard of the search
@@ -424,6 +445,10 @@ def main(mod, argv):
                 for case in _corpus(mod) + list(getattr(mod, "directed_cases", lambda t: [])(tier)):
                     camp.run_one(case)
             _hypothesis_search(mod, camp, tier, seed * 1000 + shard if b.get("shards", 1) > 1 else seed, b["examples"])
+            if b.get("examples2") and hasattr(mod, "strategy2"):
+                camp.stage2 = True
+                _hypothesis_search(mod, camp, tier, (seed * 1000 + shard if b.get("shards", 1) > 1 else seed) + 500009, b["examples2"], stage2=True)
+                camp.stage2 = False
             ex = getattr(mod, "extra_shard", None)
             if ex:
                 ex(tier, seed, shard, b.get("shards", 1), camp)
